@@ -37,6 +37,7 @@ class SimConn(object):
     self.fault_at = {}                  # opn -> 'exc' | 'eof' | 'hang'
     self.connect_plan = ('ok', 0.0)     # ('ok'|'refuse', delay) | ('hang',) | ('manual',)
     self.sent = bytearray()             # everything the client wrote
+    self.stall_until = 0.0              # sends block until this virtual time (peer not reading: backpressure)
     self.fed_total = 0                  # bytes fed by the peer so far
     self.consumed_total = 0             # bytes the client has read so far
     self.marks = []                     # [(end offset in the fed stream, mark)] -> 'consumed' events
@@ -145,7 +146,22 @@ class SimConn(object):
     self.sent += data
     self.net._log('send', self, n=len(data))
     self.net._on_send(self, data)
+    # Backpressure: the write call was issued (its bytes count as written now) but it returns only
+    # when the socket has drained.
+    while self.stall_until > self.net.loop.now() + 1e-9:
+      self.net._log('send_stalled', self)
+      t = self.net.loop.timer(self.stall_until - self.net.loop.now())
+      t.start(self._send_ready)
+      try:
+        self._park('send')
+      finally:
+        t.stop()
+      self._check_open()
     return None
+
+  def _send_ready(self):
+    if self._wait_kind == 'send':
+      self._wake(None)
 
   def send(self, data):
     self.sendall(data)
@@ -165,6 +181,8 @@ class SimConn(object):
       self.net._log('recv_eof', self)
       return b''
     hang = (f == 'hang')
+    if hang:
+      self.net._log('recv_hang', self)
     while True:
       if self.closed:
         raise OSError(errno.EBADF, 'Bad file descriptor (simulated: socket closed)')
